@@ -110,7 +110,8 @@ def run_harness(meta, prop_id, keep=False):
     gb = os.path.join(wd, 'a.gb')
     rc, out, err, dt = sh(['goto-cc', '--function', entry, ex['text_path'], '-o', gb], 300)
     if rc != 0:
-        res['notes'].append('goto-cc failed: ' + (err or out)[-1500:])
+        errl = [l[:300] for l in (err + out).splitlines() if 'error' in l.lower()]
+        res['notes'].append('goto-cc failed: ' + (' | '.join(errl[:4]) if errl else (err or out)[-800:]))
         res['total_s'] = time.time() - t0
         return res
     cur = gb
@@ -209,7 +210,7 @@ def run_harness(meta, prop_id, keep=False):
         res['status'] = 'error'
         res['total_s'] = time.time() - t0
         return res
-    if meta.get('loops') or meta.get('expect_loop_obligations'):
+    if ex.get('n_loop_contracts') or meta.get('expect_loop_obligations'):
         if by_class.get('loop', 0) == 0:
             res['notes'].append('loop contract annotated but no loop_invariant obligations generated (contract silently dropped?)')
             res['status'] = 'error'
